@@ -146,3 +146,23 @@ def main():
 
 if __name__ == "__main__":
     main()
+
+
+import contextlib  # noqa: E402
+
+
+@contextlib.contextmanager
+def inner_budget(seconds):
+    """A nested CPU budget inside a case: raises CpuBudget after `seconds` of process CPU time.
+    The outer budget is restored (less what was used) on exit."""
+    outer_left, _ = signal.getitimer(signal.ITIMER_PROF)
+    t0 = time.process_time()
+    signal.setitimer(signal.ITIMER_PROF, seconds)
+    try:
+        yield
+    finally:
+        used = time.process_time() - t0
+        if outer_left > 0:
+            signal.setitimer(signal.ITIMER_PROF, max(0.05, outer_left - used))
+        else:
+            signal.setitimer(signal.ITIMER_PROF, 0)
